@@ -147,6 +147,29 @@ theorem C08_no_panic (hr : Reachable c (init reqs []) s) :
     s.workers.length ≤ c.W :=
   ⟨(inv0 hr).noPanic, (inv0 hr).capErr, (inv0 hr).capInt, (inv0 hr).capRes, (inv0 hr).wlen⟩
 
+/-! ### the drain hypothesis is necessary: `C08_full` is FALSE of the model (and of the code: see DESIGN I.5,
+    observation "records still queued when the derived ctx is cancelled are dropped") -/
+
+def dropCfg : Cfg := { W := 1, capErr := 2, capRes := 2, delay := 2 }
+def dropReq : Req := { id := 5, isErr := false, out := .result }
+/-- one worker detects target 5 and `Put`s the record; the copier and the logger are never scheduled
+    during the two ticks of the exit delay; the controller cancels, the logger sees the derived ctx and
+    returns, `startScanEngine` returns with the record still in the result buffer -/
+def dropSched : List Label :=
+  [.spawn, .worker 0 .recv, .worker 0 .scan, .worker 0 .put, .genClose, .worker 0 .closedExit, .wgWait,
+   .closeErrc, .closeDone, .ctlDone, .tick, .tick, .ctlTimer, .ctlCancel, .logCtx, .drainExit, .mainReturn]
+
+/-- **`C08_full` does not hold**: without `DrainedAtCancel` a schedule that starves the copier for the whole
+    exit delay ends with the detection `Put` and not printed.  So the drain hypothesis of `C08_drain_partial`
+    cannot be removed; `C08_drain_steps` says how little it asks (≤ 6·cap+4 copier/logger steps). -/
+theorem C08_full_fails : ¬ C08_full := by
+  intro h
+  have hex : exec dropCfg (init [dropReq] []) dropSched = some ((exec dropCfg (init [dropReq] []) dropSched).get (by decide)) := by simp
+  have hr := exec_reachable (c := dropCfg) dropSched _ Reachable.init hex
+  have hp := h dropCfg [dropReq] _ (by decide) hr (by decide) (by decide)
+  revert hp
+  decide
+
 /-! ### non-vacuity (tests, labelled as such): a complete run of one worker on
     [detects, fails, error entry, nothing]; the hypotheses are satisfiable and the conclusions non-trivial -/
 
